@@ -12,14 +12,14 @@ RULE = ("the pairs of C06 (119-term universe incl. lists with tail variables, []
         "on success the resolved values of all six variables agree up to renaming of unbound variables (a `$_` inside a value counts as a constant). Non-trivial = both orders succeed and bind something.")
 
 def nontrivial(case, tag, result):
-    return tag in ("pair-swapped", "goal-head") and "(ok (some" in result and "(ss -" in result or "(ss (" in result
+    return tag in ("pair-swapped", "goal-head", "big-swapped") and "(ok (some" in result and "(ss -" in result or "(ss (" in result
 
 REL_STATS = {}
 def relations(cases, impl):
     REL_STATS.clear(); REL_STATS.update(orders_compared=0, values_compared=0)
     res_of = {case: res for (case, tag), (out, res) in zip(cases, impl)}
     for (case, tag), (out, res) in zip(cases, impl):
-        if tag not in ("pair-swapped", "goal-head"): continue
+        if tag not in ("pair-swapped", "goal-head", "big-swapped"): continue
         prior, (a, b) = _prior_and_pair(case)
         other = mk([(obs.to_text(p), obs.to_text(q)) for p, q in prior], obs.to_text(b), obs.to_text(a))
         ores = res_of.get(other)
